@@ -568,7 +568,7 @@ Fixpoint loop_gfms (fuel : nat) (h : heap) (self : oid) (p : str) : result (opti
                            do cx <- h_get h c;
                            if is_loop_typed cx then
                              do i <- obj_id cx;
-                             if ostr_eqb i (Some next) then loop_gfms f h c (format_path (set_loop_list xp rest))
+                             if ostr_eqb i (Some next) then (do res <- loop_gfms f h c (format_path (set_loop_list xp rest)); match res with Some t => Ok (Some t) | None => go r end)
                              else go r
                            else go r
                        end) kids)
